@@ -33,7 +33,7 @@ type elem struct {
 
 	// generator-side knowledge (not part of the parse result)
 	cn      string // the CN the generator put into Subject ("" = none)
-	cnClass string // "plain" | "absent" | "escaped" | "multirdn" | "nosubject"
+	cnClass string // "plain" | "absent" | "escaped" | "multirdn" | "emptycn" | "nosubject"
 }
 
 type pairOut struct {
@@ -253,7 +253,11 @@ func noisy(rng *rand.Rand) string {
 		case 0, 1:
 			sb.WriteByte(specials[rng.IntN(len(specials))])
 		case 2:
-			if rng.IntN(4) == 0 {
+			if r := rng.IntN(8); r == 0 {
+				// obs-text byte (0x80..0xFF): legal in a header value, usually
+				// not valid UTF-8 on its own
+				sb.WriteByte(byte(0x80 + rng.IntN(0x80)))
+			} else if r < 3 {
 				sb.WriteString(unicodeBits[rng.IntN(len(unicodeBits))])
 			} else {
 				sb.WriteByte(plainChars[rng.IntN(len(plainChars))])
@@ -368,6 +372,9 @@ func genSubject(rng *rand.Rand, e *elem) {
 		// silent on whether the CN comes back escaped).
 		e.cnClass = "escaped"
 		e.cn = dnPlainValue(rng) + []string{"\\,", "\\+", "\\\"", "\\\\", "\\3D"}[rng.IntN(5)] + randFrom(rng, plainChars, 1, 5)
+	case cls == 19:
+		// CN attribute present with an empty value: the CN is "".
+		e.cnClass = "emptycn"
 	case cls < 6:
 		// multi-valued RDN (CN=x+OU=y / OU=y+CN=x): the CN is x.
 		e.cnClass = "multirdn"
